@@ -5,7 +5,10 @@ MT_CLAUSES = ["C15_Sum", "C15_Transfer", "C15_Burn", "C15_Range", "C15_Authority
               "Rejected_NoEffect",
               # round 7: balances of EVERY address in the raw store add up to the recorded supply; what the
               # supply and balances queries answer is what the store holds
-              "C15_StoreSum", "C15_Reported"]
+              "C15_StoreSum", "C15_Reported",
+              # audit after round 7: "the owner of a class" taken from the accepted messages (issuer, then the
+              # named recipient of every accepted handover) instead of the class record
+              "C15_HistAuthority", "C15_HistOwner"]
 
 # negative probing / unusual inputs (round 7): antecedents exercised on every run by scenarios/mt_probe.ndjson
 # (written by scenarios/mt_mk_probe.py)
